@@ -46,6 +46,9 @@ type Step struct {
 	// played by a goroutine flushing in a tight loop while the data is added, so that commits fall BETWEEN the writes
 	// of one operation; up to two of the commits made meanwhile are then examined as crash points.
 	Race bool `json:"race,omitempty"`
+	// Forge (blocks stage): before the genuine next block a copy of it with a forged witness is offered (1: the
+	// verification script replaced by PUSH1, 2: one bit of the invocation script flipped); it must be refused.
+	Forge int `json:"forge,omitempty"`
 }
 
 // SCase is one state-sync scenario.
@@ -100,6 +103,7 @@ func genStep(t *rapid.T) Step {
 		}
 		s.Gap = rapid.IntRange(0, 9).Draw(t, "gap") == 0
 		s.Race = rapid.IntRange(0, 5).Draw(t, "race") == 0
+		s.Forge = rapid.SampledFrom([]int{0, 0, 0, 1, 2}).Draw(t, "forge")
 	case "grow":
 		s.A = rapid.IntRange(1, 3).Draw(t, "delta")
 	}
@@ -1068,6 +1072,24 @@ func (d *driver) feedBlock(st Step) error {
 	if next == d.src.P && d.c.RaceJump && !d.plain && d.n.rec != nil {
 		stopFlusher = d.n.startFlusher()
 		d.o.Label("jump-raced-by-the-periodic-flush")
+	}
+	if st.Forge != 0 && !d.plain {
+		forged := d.src.blk(next)
+		if st.Forge == 1 {
+			forged.Script.VerificationScript = []byte{0x11}
+			forged.Script.InvocationScript = []byte{}
+		} else if n := len(forged.Script.InvocationScript); n > 10 {
+			inv := bytes.Clone(forged.Script.InvocationScript)
+			inv[5+int(st.Seed%uint64(n-10))] ^= 0x10
+			forged.Script.InvocationScript = inv
+		}
+		if err := d.mod.AddBlock(forged); err == nil {
+			return fmt.Errorf("AddBlock(%d) accepts a copy of the genuine block with a forged witness (kind %d; sync point %d, first block of the blocks stage %v): the hash of a block does not cover its witness", next, st.Forge, d.src.P, next == d.mod.BlockHeight())
+		}
+		if bh := d.mod.BlockHeight(); bh != next-1 {
+			return fmt.Errorf("a refused block with a forged witness moved the module's block height to %d", bh)
+		}
+		d.o.Labelf("forged-witness-%d-refused", st.Forge)
 	}
 	genuine := d.src.blk(next)
 	if d.c.AltWitness && ck.AltBlockWitness(genuine) {
